@@ -40,6 +40,7 @@ def run(ctx):
     linear_ops(ctx, facts)
     from rules import C07
     C07.reveal_algebra(ctx, facts)    # what is sent, received and summed when a value is opened
+    C07.reveal_excluded(ctx, facts)
     from rules import C02
     C02.downgrade_users(ctx, facts)    # who may read a MAC-protected share without its check
     ctx.assume("detection probability (1/|F|) and algebraic soundness of the MAC scheme are not decided")
